@@ -84,7 +84,7 @@ func checkStmt(dialect, qual, q string, u *universe, st stmt, stats *refStats) (
 	}
 	hd := head(tk, 3)
 	// single-clause statements: add the keyword that follows the statement's first name chain
-	// (ALTER TYPE … RENAME / ADD, ALTER INDEX … RENAME, COMMENT ON TABLE … IS, CREATE TYPE … AS).
+	// (ALTER TYPE .. RENAME / ADD, ALTER INDEX .. RENAME, COMMENT ON TABLE .. IS, CREATE TYPE .. AS).
 	if hd != "ALTER TABLE" && hd != "CREATE TABLE" {
 		j := 0
 		for j < len(tk) && tk[j].K == kWord && !isNameOf(u, tk[j]) {
@@ -99,7 +99,7 @@ func checkStmt(dialect, qual, q string, u *universe, st stmt, stats *refStats) (
 			break
 		}
 		if j < len(tk) && tk[j].K == kWord && j > 0 && tk[j-1].K == kIdent {
-			hd += " … " + strings.ToUpper(tk[j].V)
+			hd += " .. " + strings.ToUpper(tk[j].V)
 		}
 	}
 	if stats != nil {
@@ -188,7 +188,7 @@ func checkStmt(dialect, qual, q string, u *universe, st stmt, stats *refStats) (
 		default:
 			ctx = tk[k-1].V
 		}
-		// PostgreSQL: the new name of ALTER TABLE / INDEX / TYPE … RENAME TO <new_name> is a bare name by
+		// PostgreSQL: the new name of ALTER TABLE / INDEX / TYPE .. RENAME TO <new_name> is a bare name by
 		// grammar (it cannot carry a schema); it names nothing that exists yet and is not a reference.
 		if dialect == "postgres" && len(got) == 0 && k >= 2 && tk[k-1].K == kWord && strings.EqualFold(tk[k-1].V, "TO") &&
 			tk[k-2].K == kWord && strings.EqualFold(tk[k-2].V, "RENAME") {
